@@ -255,3 +255,34 @@ func runOne(f func()) (outcome string) {
 	}
 	return "PASS"
 }
+
+// cellCut: byte offset of the boundary before cell number `cell`, where after the first headerBytes bytes a
+// maximal run of number characters is one cell and every other byte is a cell of its own.
+func cellCut(b []byte, cell, headerBytes int) int {
+	if cell <= headerBytes {
+		return cell
+	}
+	isNum := func(c byte) bool {
+		return (c >= '0' && c <= '9') || c == '-' || c == '+' || c == '.' || c == 'e' || c == 'E'
+	}
+	pos, n := headerBytes, headerBytes
+	for pos < len(b) && n < cell {
+		if isNum(b[pos]) {
+			for pos < len(b) && isNum(b[pos]) {
+				pos++
+			}
+		} else {
+			pos++
+		}
+		n++
+	}
+	return pos
+}
+
+func cellCount(b []byte, headerBytes int) int {
+	n := 0
+	for cellCut(b, n+1, headerBytes) > cellCut(b, n, headerBytes) {
+		n++
+	}
+	return n
+}
